@@ -166,6 +166,17 @@ impl<B: Buffer> History<B> {
     }
 }
 
+#[cfg(feature = "verif-hooks")]
+impl<B: Buffer> History<B> {
+    pub(crate) fn verif_parts(&self) -> crate::verif::VerifHistory<'_> {
+        crate::verif::VerifHistory {
+            buffer: self.buffer.as_slice(),
+            used: self.used,
+            cursor: self.cursor,
+        }
+    }
+}
+
 #[cfg(test)]
 mod tests {
     use crate::history::History;
